@@ -546,6 +546,8 @@ impl std::fmt::Display for Scad {
                     writeln!(f, ") {{")?;
                 } else if let Some(hex) = hex {
                     writeln!(f, "color({}) {{", ScadStr(hex))?;
+                } else {
+                    writeln!(f, "color() {{")?;
                 }
             }
             ScadOp::Offset { r, delta, chamfer } => {
@@ -553,6 +555,8 @@ impl std::fmt::Display for Scad {
                     writeln!(f, "offset(r={}) {{", r)?;
                 } else if let Some(delta) = delta {
                     writeln!(f, "offset(delta={}, chamfer={}) {{", delta, chamfer)?;
+                } else {
+                    writeln!(f, "offset() {{")?;
                 }
             }
             ScadOp::Hull => {
